@@ -20,6 +20,8 @@ NAMES = [
     "Deady", "United States", "State", "Bell Atlantic Corp.", "Twombly", "Nobelman", "Am. Sav. Bank", "K.F.", "Roe",
     "Wade", "Inc.", "Miles", "AT&T", "O'Brien", "Peña", "Lissner", "Shapiro", "Adarand", "Wilkins", "Zubrek",
     "Nun\u0303ez", "M\u00fcller", "al-Kidd", "D'Amato", "\u0141o\u015b",
+    # not names at all: what is left of a caption after bad OCR or redaction
+    "[[[", '"""', "\u201c\u2018(", "[ [", "___", "...", "De Leon", "DeLeon", "Van Buren", "X", "\u00a7\u00a7\u00a7",
 ]
 STOPS = ["v.", "v", "In re", "Ex parte", "see", "See", "citing", "cert. denied", "aff'd", "aff'd", "aff’d,", "affirmed", "remanded",
          "granted", "dismissed", "See also", "But see"]
